@@ -60,7 +60,25 @@ func area(r []Point, i int, p Polygon, bounds []*Bounds) float64 {
 		return -A // This is a hole
 	}
 
-	// All of the points on this ring are on the edge of the polygon. In this
+	// All of the points on this ring are on the edge of the polygon: other
+	// rings touch it at every vertex (small holes tucked into every corner of
+	// a shell, for instance). The middle of one of its sides then tells
+	// whether it is a hole.
+	for ii := range r {
+		a, b := r[ii], r[(ii+1)%len(r)]
+		if a == b {
+			continue
+		}
+		in := pointInPolygon(Point{X: a.X/2 + b.X/2, Y: a.Y/2 + b.Y/2}, pWithoutRing, boundsWithoutRing)
+		if in == OnEdge {
+			continue
+		} else if in == Outside {
+			return A // This is not a hole.
+		}
+		return -A // This is a hole
+	}
+
+	// All of its sides run along other rings as well. In this
 	// case we check if this ring exactly matches, and therefore cancels out,
 	// any of the other rings.
 	matches := 0
